@@ -570,6 +570,8 @@ class Driver:
             points = []
             for (k, lab) in calls:
                 points.append((k, lab, "before"))
+                if lab == "line":
+                    continue  # dying before a line == dying after the previous one
                 points.append((k, lab, "after"))
                 if lab in ("write", "copy-write"):
                     points.append((k, lab, "mid"))
